@@ -40,7 +40,8 @@ META = dict(
                "(C02_F_mix_entrywise) and — on values of ANY trailing shape, both alignments of revert(subset, right_broadcasting) — for the whole entry-wise "
                "toy vocabulary: affine maps of any number of parents, the weighted one-parent maps, a two-parent map of weighted parents (C01_F_mix_nd, "
                "C01_never_stale_nd; State/StateNdExec.v, tied by toy histories on n-d graphs run inside Coq); a hypothesis for other functions, false for what "
-               "torch does outside the documented contract (0-d per-individual values, a value weighted on one side only); exercised incl. +-inf/NaN by the tie and the oracle; torch kernels, deepcopy, REF-mode aliasing under in-place mutation are outside the model. "
+               "torch does outside the documented contract (0-d per-individual values, shape-changing masks); since the repair of `_select` (a side without weights is fully "
+               "weighted) two sides of different kinds are inside the contract and covered; exercised incl. +-inf/NaN by the tie and the oracle; torch kernels, deepcopy, REF-mode aliasing under in-place mutation are outside the model. "
                "Former finding F1 (fork-mode-switch-stale-revert) is fixed by 27ac519 and the blend of partial reverts (F2 of C02) by "
                "fe0cadd; a tree whose __setitem__ keeps the fork on an un-forked assignment, or whose revert(subset) blends, is reported "
                "as a violation with the stale-read history as replay.",
@@ -153,6 +154,10 @@ def settle_variant(run: Run):
                        "a non-finite value on the discarded side leaks into the kept one, F_mix does not hold for non-finite values and the "
                        "examples of Props/C01.v (xsem_where) do not describe this code.  The tie of this run is made against xsem so that the "
                        "search reports the stale read itself.", kind="broken-correspondence")
+    # the n-d instance (nsem) is about `_select` treating a side without weights as fully weighted; the toy histories never hold values of
+    # different kinds on the two sides, so both rules give the same results there: recorded, and broken only if not recognised (C02 reports
+    # the old rule through the changed row itself)
+    T.settle_select_variant(run, report_tie=False)
     run.count("revert_mix_variant", {"where": "selects: torch.where(mask, old, cur) (since fe0cadd)",
                                      "blend": "blends: old*mask + cur*~mask (before fe0cadd)", None: "not recognised"}[mix])
     run.count("setitem_variant", {True: "drops the fork on an un-forked assignment (since 27ac519)",
